@@ -95,6 +95,18 @@ func BigOf(s string) *big.Int {
 	return v
 }
 
+// DtFar is Dt with a rare jump of two to three centuries: block time is whatever consensus agrees on, and times
+// beyond the year 2262 no longer fit a signed 64-bit count of nanoseconds.
+//
+// A block header carries its time as a protobuf timestamp, which ends with the year 9999: jumps are only taken while
+// the clock is before 2300, so a history stays far below that limit.
+func DtFar(t *rapid.T, label string, now time.Time) int64 {
+	if rapid.IntRange(0, 39).Draw(t, label+"/far") == 0 && now.Year() < 2300 {
+		return int64(365*24*time.Hour) * int64(rapid.IntRange(200, 290).Draw(t, label+"/years"))
+	}
+	return Dt(t, label)
+}
+
 // Dt draws a block-time increment in nanoseconds: 1 ns … days, mostly seconds.
 func Dt(t *rapid.T, label string) int64 {
 	switch rapid.IntRange(0, 9).Draw(t, label+"/k") {
